@@ -708,6 +708,25 @@ def _roots(repo: Repo) -> Roots:
     return repo.__dict__[key]
 
 
+def memo_engine(repo: Repo, reach=None):
+    """The classifier of c15_memo.py for this tree (region: the functions reachable from the evaluation entry points)."""
+    from .c15_memo import Memos
+
+    key = "_c15_memo_engine"
+    if key not in repo.__dict__:
+        region = list(reach if reach is not None else _eval_reach(repo))
+        repo.__dict__[key] = Memos(repo, types_of(repo), _roots(repo), region, lambda g, c: _lib_name(repo, g, c))
+    return repo.__dict__[key]
+
+
+def memo_tables(repo: Repo, reach=None) -> list:
+    """Instance tables filled by keyed stores during evaluations, each judged (c15_memo.py): memo | violated | other."""
+    key = "_c15_memos"
+    if key not in repo.__dict__:
+        repo.__dict__[key] = memo_engine(repo, reach).tables()
+    return repo.__dict__[key]
+
+
 def _describe(tag, root_fn: FuncInfo) -> str:
     r, level = tag
     what = "receiver" if r[0] == "self" else f"argument `{r[2]}`" if r[0] == "param" else f"module-level `{r[1]}`" if r[0] == "global" else f"object of unknown origin `{r[1]}`"
@@ -1023,6 +1042,10 @@ def run_r2(repo: Repo, res: Result) -> None:
             rewrites.append(rw)
             if rw.verdict != "violated":
                 accepted |= {id(node) for _fi, node in rw.stores}
+    # second accepted kind of write: filling a memo table nobody can observe (judged by C15.R4, c15_memo.py)
+    for mt in memo_tables(repo):
+        if mt.verdict == "memo":
+            accepted |= mt.nodes
     S = EffectSummaries(repo, T, R, list(reach), skip=lambda w: id(w.node) in accepted)
     for r in roots:
         mine = [e for e in S.of(r) if e.tag[0][0] in ("self", "param") and e.tag[0][1] == r.fq]
@@ -1598,7 +1621,7 @@ def _reads_only_constants(repo: Repo, f: FuncInfo, depth: int = 0, stack: tuple 
     return None
 
 
-def memoised(repo: Repo) -> list[dict]:
+def memoised(repo: Repo, reach=None) -> list[dict]:
     """Functions under a caching decorator; `harmless` when the cache cannot be observed: a function (module-level, static or
     class method - no instance) of immutable arguments only, returning an immutable value (text, numbers, tuples / frozensets of
     those, a compiled pattern), computed from its arguments and immutable module / class constants only, writing nothing."""
@@ -1610,8 +1633,16 @@ def memoised(repo: Repo) -> list[dict]:
             continue
         why = []
         sn = Roots.self_name(f)
-        if "cached_property" in decos or (sn is not None and not f.is_classmethod):
-            why.append("it is bound to an instance whose state it can read: the value computed for one state of the object is served for every later one")
+        bound = "cached_property" in decos or (sn is not None and not f.is_classmethod)
+        if bound:
+            # a memo per instance: unobservable when the method is a function of its arguments and of state that is fixed
+            # once the constructor has finished (c15_memo.py), and cannot run before that
+            eng = memo_engine(repo, reach)
+            reason = eng.pure(f) if f.cls is not None else "it is not a method of a class"
+            if reason is None and f in eng.ctor_reach(f.cls):
+                reason = "it can run while the object is still under construction"
+            if reason is not None:
+                why.append(f"it is bound to an instance whose state it can read ({reason}): the value computed for one state of the object is served for every later one")
         for p in f.params:
             if p.arg == sn:
                 continue
@@ -1621,11 +1652,11 @@ def memoised(repo: Repo) -> list[dict]:
         rt = _immutable_type(T.return_type(f))
         if rt is not True:
             why.append("the cached result is a mutable object shared between all callers" if rt is False else "the type of the cached result is unknown")
-        if not why:
+        if not why and not bound:
             reason = _reads_only_constants(repo, f)
             if reason is not None:
                 why.append(reason)
-        out.append({"f": f, "decorators": decos, "harmless": not why, "why": why})
+        out.append({"f": f, "decorators": decos, "harmless": not why, "why": why, "bound": bound})
     return out
 
 
@@ -1650,10 +1681,20 @@ def run_r4(repo: Repo, res: Result) -> None:
             "C15.R4",
             f"{f.relpath}::{f.qualname}::cache decorator",
             m["harmless"],
-            f"{f.qualname} is memoised ({', '.join(m['decorators'])}) but is not bound to an instance, takes immutable arguments only, returns an immutable value computed from them and from immutable constants, and writes nothing: the cache cannot be observed" if m["harmless"] else f"{f.qualname} is memoised ({', '.join(m['decorators'])}): results computed for one architecture / configuration are served to later calls; " + "; ".join(m["why"]),
+            (f"{f.qualname} is memoised ({', '.join(m['decorators'])}) per instance, takes immutable arguments only, returns an immutable value computed from them and from state that is fixed when the constructor has finished, cannot run before that, and writes nothing: the cache cannot be observed" if m["bound"] else f"{f.qualname} is memoised ({', '.join(m['decorators'])}) but is not bound to an instance, takes immutable arguments only, returns an immutable value computed from them and from immutable constants, and writes nothing: the cache cannot be observed") if m["harmless"] else f"{f.qualname} is memoised ({', '.join(m['decorators'])}): results computed for one architecture / configuration are served to later calls; " + "; ".join(m["why"]),
             where(f, f.node),
             kind="effect",
         )
+    # tables on long-lived instances that evaluations fill by key: a memo nobody can observe, or a cache that serves stale answers
+    for mt in memo_tables(repo):
+        f0, n0, _k, _v = mt.stores[0]
+        key = f"{f0.relpath}::{mt.cls.name}.{mt.attr}::instance memo table"
+        if mt.verdict == "memo":
+            res.add("C15.R4", key, True, mt.detail, where(f0, n0), kind="effect")
+        elif mt.verdict == "violated":
+            res.add("C15.R4", key, False, f"{mt.cls.name}.{mt.attr} is filled during evaluations and is not keyed completely: {mt.detail}", where(f0, n0), kind="effect")
+        else:
+            res.observe(f"{key}: not accepted as an unobservable memo ({mt.detail}); its writes are judged by C15.R2")
     bad_memo = [m for m in ms if not m["harmless"]]
     res.add("C15.R4", "src::no shared mutable state written inside functions", not ws and not bad_memo, f"{len(repo.funcs)} functions analysed: none writes class-level, module-level or closure state, none keeps an observable cache", kind="effect")
     # positive fixture: the rule must recognise the textbook forms (expected count on the real tree is zero)
@@ -1663,18 +1704,34 @@ def run_r4(repo: Repo, res: Result) -> None:
     try:
         got = {(w["f"].qualname, w["kind"]) for w in shared_state_writes(frepo)}
         want = {("Cache.lookup", "classvar"), ("Cache.lookup_through_alias", "classvar"), ("remember", "global"), ("remember_through_alias", "global"), ("Cache.via_cls", "classvar"), ("make_counter.count", "closure")}
-        clean = {"Cache.own_only", "Cache.__init__", "local_only", "local_only.note"}
+        clean = {"Cache.own_only", "Cache.__init__", "local_only", "local_only.note", "Index.__init__", "Index.rename"}
         if got != want or any(q in clean for q, _k in got):
             raise AnalysisError(f"C15.R4 fixture: shared-state writes not recognised exactly (got {sorted(got)}, want {sorted(want)})")
-        memo = {m["f"].qualname: m["harmless"] for m in memoised(frepo)}
+        memo = {m["f"].qualname: m["harmless"] for m in memoised(frepo, frepo.all_functions())}
         want_memo = {
             "pure_text": True, "shared_result": False, "state_dependent": False, "of_mutable_argument": False,
             "Patterns.body_pattern": True, "Patterns.escaped": True, "Patterns.matches_of": False, "Patterns.reads_mutable_class_state": False,
-            "Patterns.reads_mutable_module_state": False, "Patterns.of_instance": False, "Patterns.lazily": False,
+            "Patterns.reads_mutable_module_state": False, "Patterns.of_instance": True, "Patterns.lazily": True,
+            "Index.of_fixed_state": True, "Index.fixed_lazily": True, "Index.of_later_state": False, "Index.list_lazily": False,
+            "Index.during_construction": False, "Index.of_mutable_class_state": False,
         }
         if memo != want_memo:
             raise AnalysisError(f"C15.R4 fixture: memoised functions not classified as expected (got {memo}, want {want_memo})")
         res.add("C15.R4", "fixture::engine/rules/c15_fixtures/shared_state.py", True, f"positive fixture recognised: {sorted(got)}; memoised: {memo}", nontrivial=False)
+    finally:
+        shutil.rmtree(tmp, ignore_errors=True)
+    tmp, frepo = _fixture_repo("memo.py")
+    try:
+        got_m = {mt.attr.lstrip("_"): mt.verdict for mt in memo_tables(frepo, frepo.all_functions())}
+        want_m = {
+            "ok_tuple": "memo", "ok_copied": "memo", "ok_setdefault": "memo", "ok_pair": "memo", "bad_half_key": "violated", "bad_flag_ignored": "violated",
+            "other_iterated": "other", "other_handed_out": "other", "other_early": "other", "other_later_state": "other", "other_control": "other",
+            "other_derived_key": "other",
+        }
+        if got_m != want_m:
+            diff = {k: (got_m.get(k), want_m.get(k)) for k in sorted(set(got_m) | set(want_m)) if got_m.get(k) != want_m.get(k)}
+            raise AnalysisError(f"C15.R4 fixture: instance memo tables not classified as expected (table: (got, want)) {diff}")
+        res.add("C15.R4", "fixture::engine/rules/c15_fixtures/memo.py", True, f"positive fixture recognised: {got_m}", nontrivial=False)
     finally:
         shutil.rmtree(tmp, ignore_errors=True)
 
